@@ -41,8 +41,13 @@ Proved for ALL inputs (no size bound):
   `relock_unlisted_exact_partial`  completeness of the driver's classes: in universes without provides a resolution
                                  whose class is `unlisted` round-trips exactly (this proof found class F09l);
   `not_RelockSucceeds`           the full success statement is FALSE.
-  Not proved: the fixpoint in the presence of provides (virtuals); there the check relies on the round-trip oracle
-  evaluated on every Go output (classes F09a–F09l).
+  With provides (Proofs/Lemmas/RelockProvides.lean, lemmas in RelockProv.lean / RelockProvLoop.lean / RelockProvTop.lean):
+  `relock_exact_provides_partial`  virtual names, versioned provides, several providers, competing non-members: the
+                                 lock re-resolves to exactly the locked set under the negated classes F09a–F09n and
+                                 "two members provide one name only without versions";
+  `relock_unlisted_exact_provides_partial`  the same from `relockClass = unlisted` (classes F09m, F09n found here);
+  `F09b_needed`, `F09h_needed`, `F09m_self_needed`, `F09m_twice_needed`, `F09n_needed`   witnesses.
+  Not proved: `RelockClassesComplete` without the residual hypothesis; install_if (F09c) is outside every theorem.
 -/
 import Apko.Proofs.Lemmas.Lock
 import Apko.Proofs.Lemmas.RelockInv
@@ -1326,14 +1331,12 @@ theorem names_of_pairwise {S : List Pkg} (hd : S.Pairwise (fun a b => a.name ≠
       · exact ih hxs h1 h2
 
 /-- the statement aimed at, for ALL universes (provides and virtual names included): the driver's classifier is
-complete — a resolution whose class is `unlisted` round-trips exactly.  OPEN: proved below for universes without
-provides (`relock_unlisted_exact_partial`); with provides it is exercised, not proved (the provides families of
-harness/suite_lock.go search it for a counterexample on every run: Go = Impl and a failing round trip of class
-`unlisted` is a VIOLATION).  What a proof needs beyond the invariant of Lemmas/RelockSucc.lean: candidates for a virtual
-name are not confined to members, so "the pick is a member" has to come from `compare_prefers_existing` /
-`minFunc_prefers` (every member is in `existing`); `disqualifyConflicts` and `pick` act on the members' provides (two
-members providing one versioned virtual disqualify each other); `constrain` on `virt>=x` disqualifies unversioned
-providers. -/
+complete — a resolution whose class is `unlisted` round-trips exactly.  OPEN in this generality: proved below for
+universes without provides (`relock_unlisted_exact_partial`) and, in Lemmas/RelockProvides.lean, for universes WITH
+provides under one residual hypothesis the classifier does not decide (`relock_unlisted_exact_provides_partial`: two
+different members provide one name only without versions) plus `ownNames`-like provider order.  The proof attempts are
+what found the classes F09l, F09m and F09n.  The provides families of harness/suite_lock.go search the open part for a
+counterexample on every run (Go = Impl and a failing round trip of class `unlisted` is a VIOLATION). -/
 def RelockClassesComplete : Prop :=
   ∀ (c : Cfg) (w : List Text) (dq0 : List Nat) (r : Resolution), resolve c w dq0 = .ok r → C02.IdsDistinct c.u →
     EntriesReadBack w r.install → relockClass c.u w r.install = "unlisted" →
@@ -1365,6 +1368,8 @@ theorem relock_unlisted_exact_partial (c : Cfg) (w : List Text) (dq0 : List Nat)
   next hdup =>
   split at hcls; · exact absurd hcls (by decide)
   next hjunk =>
+  split at hcls; · exact absurd hcls (by decide)
+  split at hcls; · exact absurd hcls (by decide)
   -- unpack the classifier
   simp only [invalidOriginal, Bool.or_eq_true, Bool.not_eq_true', not_or, Bool.not_eq_true] at hinv
   obtain ⟨hvalid, hconf⟩ := hinv
